@@ -72,18 +72,9 @@ def operand_sides(arm_body, fname):
     return out
 
 
-def run(chk):
-    fx = F.Facts()
-    types = fx.file(VALUE)['types']
-    chk.rule('C04-R1b', 'in the non-commutative folding functions (try_sub, try_div, try_floordiv, try_pow, try_mod, comparisons, shifts) the left operand of the applied operator is '
-                        'the value bound in the first position of the arm pattern and the right operand the second — for every alternative of an or-pattern')
-    chk.rule('C04-R1', 'in ValueObj::try_<op>, every numeric arm (Int/Nat/Float x Int/Nat/Float) applies only the operator <op> to its operands '
-                       '(try_floordiv: `/` then floor for floats; try_pow: pow/powf/powi and no other arithmetic)')
-    chk.rule('C04-R2', 'Context::eval_bin dispatches OpKind::X to ValueObj::try_x')
-    chk.rule('C04-R3', 'the numeric arms of try_<op> and eval_unary_val contain no integer operation that can trap or silently truncate: unchecked + - * '
-                       '(overflow), integer / and % (zero divisor; Rust truncates where Python floors), lossy `as` casts between i32 and u64, integer pow')
+def fold_arms(chk, fx, types, opclass, r1='C04-R1', r1b='C04-R1b', audit=True):
     n_arms = 0
-    for fname, cls in OPCLASS.items():
+    for fname, cls in opclass.items():
         fn = fx.fn(VALUE, 'ValueObj::' + fname)
         ms = [n for n in T.stmts_of(fn['body']) if T.unsemi(n).get('k') == 'Match']
         if not chk.need(len(ms) == 1, '%s: expected one top-level match' % fname):
@@ -100,9 +91,9 @@ def run(chk):
                 sides = operand_sides(arm['b'], fname)
                 wrong_side = [sd for sd in sides if (names[1] in sd[0] and names[0] not in sd[0]) or (names[0] in sd[1] and names[1] not in sd[1])]
                 if sides and not wrong_side:
-                    chk.ok('C04-R1b', (fname, inst))
+                    chk.ok(r1b, (fname, inst))
                 elif wrong_side:
-                    chk.bad('C04-R1b', where, 'order:' + inst, '%s arm (%s): the operator is applied as `%s`, with the operands in the opposite order of the pattern `(%s, %s)`%s'
+                    chk.bad(r1b, where, 'order:' + inst, '%s arm (%s): the operator is applied as `%s`, with the operands in the opposite order of the pattern `(%s, %s)`%s'
                             % (fname, inst, T.show(arm['b'])[:80], names[0], names[1], ' (one alternative of an or-pattern)' if nalt > 1 else ''), VALUE, arm['l'])
             ops = [n for n in T.walk(arm['b']) if n.get('k') == 'Binary' and n['op'] in ARITH]
             pows = [n for n in T.calls(arm['b']) if n.get('k') == 'MCall' and n['n'] in POWFNS]
@@ -116,15 +107,30 @@ def run(chk):
                 if fname == 'try_floordiv' and 'Float' in kinds and not floors:
                     good = False
             if good:
-                chk.ok('C04-R1', (fname, inst), sample='%s (%s): %s' % (fname, inst, T.show(arm['b'])))
+                chk.ok(r1, (fname, inst), sample='%s (%s): %s' % (fname, inst, T.show(arm['b'])))
             else:
                 what = ('applies `%s`' % wrong[0]['op']) if wrong else ('applies pow' if pows and fname != 'try_pow' else
                                                                          'has no `%s` application' % '/'.join(sorted(cls) or ['pow']) if not floors and fname != 'try_floordiv' or not ops else 'does not floor the float quotient')
-                chk.bad('C04-R1', where, inst, '%s arm (%s) %s: `%s`' % (fname, inst, what, T.show(arm['b'])), VALUE, arm['l'])
+                chk.bad(r1, where, inst, '%s arm (%s) %s: `%s`' % (fname, inst, what, T.show(arm['b'])), VALUE, arm['l'])
             # R3
-            audit_int_ops(chk, arm['b'], types, where, inst, VALUE)
+            if audit:
+                audit_int_ops(chk, arm['b'], types, where, inst, VALUE)
         if fname not in ('try_eq', 'try_ne'):
             chk.need(len(seen_pairs) >= 9, '%s: only %d of the 9 numeric operand pairs have an arm' % (fname, len(seen_pairs)))
+    return n_arms
+
+
+def run(chk):
+    fx = F.Facts()
+    types = fx.file(VALUE)['types']
+    chk.rule('C04-R1b', 'in the non-commutative folding functions (try_sub, try_div, try_floordiv, try_pow, try_mod, comparisons, shifts) the left operand of the applied operator is '
+                        'the value bound in the first position of the arm pattern and the right operand the second — for every alternative of an or-pattern')
+    chk.rule('C04-R1', 'in ValueObj::try_<op>, every numeric arm (Int/Nat/Float x Int/Nat/Float) applies only the operator <op> to its operands '
+                       '(try_floordiv: `/` then floor for floats; try_pow: pow/powf/powi and no other arithmetic)')
+    chk.rule('C04-R2', 'Context::eval_bin dispatches OpKind::X to ValueObj::try_x')
+    chk.rule('C04-R3', 'the numeric arms of try_<op> and eval_unary_val contain no integer operation that can trap or silently truncate: unchecked + - * '
+                       '(overflow), integer / and % (zero divisor; Rust truncates where Python floors), lossy `as` casts between i32 and u64, integer pow')
+    n_arms = fold_arms(chk, fx, types, OPCLASS)
     chk.floor('numeric arms analysed', n_arms, 110)
 
     # eval_unary_val: Neg arm
